@@ -33,7 +33,7 @@ theorem seal_validates (H : Hashes) (hH : Spec.HashesOk H) (c : Creds) (b : Buil
     rw [show (fun x : Spec.Tlv => x.ty) = (fun x : RawAttr => x.ty) ∘ Spec.Tlv.raw from rfl, this]
     apply List.map_congr_left
     intro a _
-    exact asRaw_ty a
+    exact asRaw_ty_seal a
   rw [validate_spec H b.build m ts c hp hw]
   exact sealed_verdict H hH c b hok (reachWith_sealed H hH c b hr hs) ts hw hts htypes hsealed
 
